@@ -16,6 +16,18 @@ type extra struct {
 	ExtraNote string
 }
 
+// Collide: an outer field and a field of an embedded struct share a name (a legal shape whose
+// resolution must at least be the same every time it is evaluated).
+type Inner struct {
+	Name string
+	Only string
+}
+
+type Collide struct {
+	Name string
+	Inner
+}
+
 // Meta is embedded by pointer: promoted through a pointer, also the slow path.
 type Meta struct {
 	MetaName string
@@ -57,6 +69,7 @@ type Root struct {
 	Arr     [2]int
 	Any     interface{}
 	NoNames []string // always empty (non-nil)
+	Col     Collide
 }
 
 func (r *Root) First() Item {
@@ -94,7 +107,8 @@ func GenData(t *sim.Tape, tag int) DataSpec {
 
 func (d DataSpec) BuildRoot() *Root {
 	r := &Root{Base: Base{BaseName: fmt.Sprintf("bn%d", d.Tag), Shared: 7}, Meta: &Meta{MetaName: fmt.Sprintf("mn%d", d.Tag)}, Title: d.Title, Count: d.Count, Flag: d.Flag,
-		One: map[string]int{"k": d.Tag}, Arr: [2]int{4, 2}, Any: "any", NoNames: []string{}}
+		One: map[string]int{"k": d.Tag}, Arr: [2]int{4, 2}, Any: "any", NoNames: []string{},
+		Col: Collide{Name: "outer", Inner: Inner{Name: "embedded", Only: "only"}}}
 	for i := 0; i < d.NItems; i++ {
 		it := Item{Name: fmt.Sprintf("it%d.%d", d.Tag, i), N: i + 1, Tags: []string{fmt.Sprintf("tg%d", i)}, M: map[string]string{"mk": fmt.Sprintf("mv%d", i)}, secret: "PRIVATE", extra: extra{ExtraNote: fmt.Sprintf("xn%d", i)}}
 		if i == 0 {
